@@ -268,6 +268,10 @@ func (s *Stage) Prepare(parts []sts.Binned) {
 	for _, part := range parts {
 		path := filepath.Join(s.rootDir, part.GetName())
 		fileutil.VerifPoint("stage.prepare", path)
+		if s.isDuplicate(path, part.GetFileHash()) {
+			// Nothing to stage for a part of a version we already have
+			continue
+		}
 		lock := s.getPathLock(path)
 		s.logDebug("Preparing:", path)
 		lock.Lock()
@@ -278,6 +282,15 @@ func (s *Stage) Prepare(parts []sts.Binned) {
 			s.logError(err.Error())
 		}
 	}
+}
+
+// isDuplicate returns whether the version (hash) of the file staged at path
+// was already received completely and has not failed validation
+func (s *Stage) isDuplicate(path, hash string) bool {
+	existing := s.fromCache(path)
+	return existing != nil &&
+		existing.state != stateFailed &&
+		existing.hash == hash
 }
 
 // Receive reads a single file part with file metadata and reader
@@ -291,6 +304,20 @@ func (s *Stage) Receive(file *sts.Partial, reader io.Reader) (err error) {
 	part := file.Parts[0]
 	path := filepath.Join(s.rootDir, file.Name)
 	fileutil.VerifPoint("stage.receive.begin", path)
+
+	if s.isDuplicate(path, file.Hash) {
+		// A part sent again (e.g. after a failed request) that arrives after
+		// the file was completed must not start a new partial of a version
+		// that is already here: the partial would never be completed and is
+		// what a restarted sender goes by to send the rest of the file again
+		s.logInfo("Ignoring part of duplicate (receive):", file.Name, part.Beg, part.End)
+		var n int64
+		if n, err = io.Copy(io.Discard, reader); err == nil && n != part.End-part.Beg {
+			err = fmt.Errorf("received only %d of %d bytes for part %d:%d of %s",
+				n, part.End-part.Beg, part.Beg, part.End, file.Name)
+		}
+		return
+	}
 
 	// Read the part and write it to the right place in the staged "partial"
 	fh, err := os.OpenFile(path+partExt, os.O_WRONLY, 0600)
